@@ -31,6 +31,11 @@ pub enum Style {
     Fallible,
 }
 
+/// a failing `=>?` action logs `FAIL_MARK + id` just before it returns its error: whatever the
+/// grammar, an execution in which this entry is not the last one, or whose result is not that
+/// very error, violates C17
+pub const FAIL_MARK: u32 = 100_000;
+
 impl Style {
     pub fn has_action(self) -> bool {
         !matches!(self, Style::DefaultSel(_) | Style::DefaultOnly)
@@ -224,10 +229,11 @@ impl DG {
             Style::AngleAll | Style::AngleSel(_) | Style::NamedAngle => format!("{} => {{ log({}); V::n({}, vs![<>]) }}", body, id, id),
             Style::DefaultSel(_) | Style::DefaultOnly => body,
             Style::Fallible => format!(
-                "{} =>? {{ log({}); let vs: Vec<V> = {}; if vs.iter().any(|v| v.is_mark()) {{ Err(ParseError::User {{ error: \"act{}\".to_string() }}) }} else {{ Ok(V::n({}, vs)) }} }}",
+                "{} =>? {{ log({}); let vs: Vec<V> = {}; if vs.iter().any(|v| v.is_mark()) {{ log({}); Err(ParseError::User {{ error: \"act{}\".to_string() }}) }} else {{ Ok(V::n({}, vs)) }} }}",
                 body,
                 id,
                 vec_of(&names),
+                FAIL_MARK + id,
                 id,
                 id
             ),
@@ -485,12 +491,34 @@ impl<'a> Ev<'a> {
                 let mark = self.dg.mark_term;
                 if items.iter().any(|v| matches!(v, Val::T(t) if Some(*t) == mark)) {
                     // the reduction runs with the token after the enclosing node as lookahead
+                    self.log.push(FAIL_MARK + id);
                     self.failed = Some((format!("act{}", id), (reduce_end + 1).min(self.ntoks)));
                     None
                 } else {
                     Some(Val::N(id, items))
                 }
             }
+        }
+    }
+}
+
+/// every inlined node deriving nothing has token-deriving siblings on both sides in its host
+pub fn inlined_empty_only_interior(dg: &DG, t: &Tree) -> bool {
+    match t {
+        Tree::Tok(..) => true,
+        Tree::Node(_, _, c) => {
+            for (i, x) in c.iter().enumerate() {
+                if let Tree::Node(n, _, _) = x {
+                    if dg.inline[*n] && x.ntoks() == 0 {
+                        let before = c[..i].iter().any(|y| y.ntoks() > 0);
+                        let after = c[i + 1..].iter().any(|y| y.ntoks() > 0);
+                        if !before || !after {
+                            return false;
+                        }
+                    }
+                }
+            }
+            c.iter().all(|x| inlined_empty_only_interior(dg, x))
         }
     }
 }
